@@ -13,6 +13,7 @@
 //!    reader shared by 2–16 OS threads and by tasks of a 16-worker tokio runtime; every result must
 //!    equal the sequential result.  Replay line: `C13 stress <target> <exec> <threads> <calls> <mode> <seed>`.
 use crate::common::*;
+use crate::indep_formats;
 use crate::memsrc::MemSource;
 use serde_json::{json, Value};
 use std::collections::HashMap;
@@ -863,8 +864,21 @@ fn stress_source() -> MemSource {
 }
 
 type Baseline = Arc<Vec<(TileCoord3, Option<Vec<u8>>)>>;
+/// indices into the baseline, grouped by the leaf directory the tile lives in (pmtiles with leaves)
+type Groups = Arc<Vec<Vec<usize>>>;
 
-fn stress_container(cfg: &StressCfg, reader: Arc<Box<dyn TilesReaderTrait>>, base: &Baseline) -> (u64, Vec<Fail>, Vec<(u64, u64)>) {
+/// mode `leaves`: a caller mostly stays inside "its" leaf directory (neighbouring tiles), different
+/// callers use different leaves; otherwise uniformly over all probes (present and absent)
+fn pick_idx(rng: &mut Rng, t: usize, nb: u64, groups: &Groups, mode: &str) -> usize {
+	if mode == "leaves" && !groups.is_empty() && !rng.chance(1, 8) {
+		let g = &groups[t % groups.len()];
+		g[rng.below(g.len() as u64) as usize]
+	} else {
+		rng.below(nb) as usize
+	}
+}
+
+fn stress_container(cfg: &StressCfg, reader: Arc<Box<dyn TilesReaderTrait>>, base: &Baseline, groups: &Groups) -> (u64, Vec<Fail>, Vec<(u64, u64)>) {
 	let check = |t: usize, i: usize, r: anyhow::Result<Option<Blob>>, base: &Baseline| -> Option<Fail> {
 		let (c, want) = &base[i];
 		match r {
@@ -892,6 +906,7 @@ fn stress_container(cfg: &StressCfg, reader: Arc<Box<dyn TilesReaderTrait>>, bas
 			.map(|t| {
 				let reader = reader.clone();
 				let base = base.clone();
+				let groups = groups.clone();
 				let cfg = cfg.clone();
 				let barrier = barrier.clone();
 				std::thread::spawn(move || {
@@ -900,7 +915,7 @@ fn stress_container(cfg: &StressCfg, reader: Arc<Box<dyn TilesReaderTrait>>, bas
 					let mut sample = vec![];
 					barrier.wait();
 					for k in 0..cfg.calls {
-						let i = rng.below(nb) as usize;
+						let i = pick_idx(&mut rng, t, nb, &groups, &cfg.mode);
 						let r = futures::executor::block_on(reader.get_tile_data(&base[i].0));
 						if let Some(f) = check(t, i, r, &base) {
 							if fails.len() < 4 {
@@ -932,13 +947,15 @@ fn stress_container(cfg: &StressCfg, reader: Arc<Box<dyn TilesReaderTrait>>, bas
 				.map(|t| {
 					let reader = reader.clone();
 					let base = base.clone();
+					let groups = groups.clone();
+				let groups = groups.clone();
 					let cfg = cfg.clone();
 					tokio::spawn(async move {
 						let mut rng = Rng::new(cfg.seed.wrapping_mul(1000).wrapping_add(t as u64));
 						let mut fails = vec![];
 						let mut sample = vec![];
 						for k in 0..cfg.calls {
-							let i = rng.below(nb) as usize;
+							let i = pick_idx(&mut rng, t, nb, &groups, &cfg.mode);
 							let r = reader.get_tile_data(&base[i].0).await;
 							if let Some(f) = check(t, i, r, &base) {
 								if fails.len() < 4 {
@@ -979,7 +996,7 @@ fn stress_container(cfg: &StressCfg, reader: Arc<Box<dyn TilesReaderTrait>>, bas
 struct StressEnv {
 	file_path: PathBuf,
 	file_data: Arc<Vec<u8>>,
-	containers: HashMap<String, (Arc<Box<dyn TilesReaderTrait>>, Baseline)>,
+	containers: HashMap<String, (Arc<Box<dyn TilesReaderTrait>>, Baseline, Groups)>,
 }
 
 fn stress_env(args: &Args, out: &mut Out, targets: &[&str]) -> StressEnv {
@@ -1021,9 +1038,85 @@ fn stress_env(args: &Args, out: &mut Out, targets: &[&str]) -> StressEnv {
 					out.notes.push(format!("{ext}: {wrong} sequential reads differ from the source (container round trip is C01's subject; C13 compares concurrent with sequential reads)"));
 				}
 				out.count_n(&format!("baseline_tiles_{ext}"), base.iter().filter(|x| x.1.is_some()).count() as u64);
-				containers.insert(ext.to_string(), (Arc::new(reader), Arc::new(base)));
+				containers.insert(ext.to_string(), (Arc::new(reader), Arc::new(base), Arc::new(vec![])));
 			}
 			Err(e) => out.notes.push(format!("{ext}: could not write/open the stress container: {e}")),
+		}
+	}
+	// PMTiles files whose directory really has LEAF directories: the leaf path of get_tile_data and its
+	// cache (`leaves_cache`) are only reached there.  (a) own writer: 130 × 130 = 16900 tiles at zoom 8
+	// (> 16384 entries); (b) independently encoded files with forced 2 and 3 directory levels.
+	for target in ["pmtiles-leaves", "pmtiles-indep2", "pmtiles-indep3"] {
+		if !targets.contains(&target) {
+			continue;
+		}
+		let path = args.out.join(format!("c13_{}.pmtiles", target.replace('-', "_")));
+		let mut rng = Rng::new(args.seed ^ 0x1eaf);
+		// coordinates in tile-id order and the size of one leaf (for the grouping)
+		let (mut coords, fan): (Vec<TileCoord3>, usize) = if target == "pmtiles-leaves" {
+			((0..130u32).flat_map(|x| (0..130u32).map(move |y| TileCoord3::new(x, y, 8).unwrap())).collect(), 400)
+		} else {
+			let mut set = std::collections::BTreeSet::new();
+			while set.len() < 600 {
+				let z = if rng.chance(1, 10) { 3 } else { 6 };
+				set.insert((z as u8, rng.below(1 << z) as u32, rng.below(1 << z) as u32));
+			}
+			(set.into_iter().map(|(z, x, y)| TileCoord3::new(x, y, z).unwrap()).collect(), if target == "pmtiles-indep2" { 16 } else { 8 })
+		};
+		coords.sort_by_key(|c| indep_formats::tile_id(c.z, c.x, c.y).unwrap());
+		let payload = |c: &TileCoord3| -> Vec<u8> {
+			let mut b = tile_bytes(c);
+			b.truncate(14 + ((c.x * 7 + c.y * 13) % 40) as usize);
+			b
+		};
+		let written: Result<(), String> = if target == "pmtiles-leaves" {
+			let mut src = MemSource::new("c13-leaves", TileFormat::PBF, TileCompression::Uncompressed, coords.iter().map(|c| (*c, Blob::from(payload(c)))).collect());
+			rt.block_on(async { write_to_filename(&mut src, path.to_str().unwrap()).await }).map_err(|e| e.to_string())
+		} else {
+			let tiles: indep_formats::TileMap = coords.iter().map(|c| ((c.z, c.x, c.y), payload(c))).collect();
+			let mut ch = indep_formats::PmChoices::plain(1, 1);
+			ch.levels = if target == "pmtiles-indep2" { 2 } else { 3 };
+			ch.fan_leaf = fan;
+			ch.fan_mid = 4;
+			let enc = indep_formats::encode_pmtiles(&tiles, &ch, &mut rng);
+			out.extra.insert(format!("{target}_directories"), json!({"dirs": enc.n_dirs, "levels": enc.levels_used, "entries": enc.n_entries}));
+			std::fs::write(&path, &enc.bytes).map_err(|e| e.to_string())
+		};
+		let r = written.and_then(|_| {
+			rt.block_on(async {
+				let reader = get_reader(path.to_str().unwrap()).await?;
+				let mut base = vec![];
+				for c in &coords {
+					base.push((*c, reader.get_tile_data(c).await?.map(|b| b.into_vec())));
+				}
+				// absent coordinates (their ids fall between / behind the entries of some leaf)
+				for i in 0..300u32 {
+					let c = if target == "pmtiles-leaves" { TileCoord3::new(130 + i % 120, (i * 7) % 256, 8).unwrap() } else { TileCoord3::new((i * 5) % 32, (i * 11) % 32, 5).unwrap() };
+					base.push((c, reader.get_tile_data(&c).await?.map(|b| b.into_vec())));
+				}
+				anyhow::Ok((reader, base))
+			})
+			.map_err(|e| format!("{e:#}"))
+		});
+		match r {
+			Ok((reader, base)) => {
+				let raw = std::fs::read(&path).unwrap_or_default();
+				let leaf_len = if raw.len() >= 56 { u64::from_le_bytes(raw[48..56].try_into().unwrap()) } else { 0 };
+				let wrong = coords.iter().zip(base.iter()).filter(|(c, b)| b.1.as_deref() != Some(&payload(c)[..])).count();
+				out.extra.insert(format!("{target}_setup"), json!({"tiles": coords.len(), "leaf_directory_bytes": leaf_len, "file_bytes": raw.len(), "sequential_reads_differing_from_source": wrong}));
+				// the set-up must really have leaf directories and the sequential reads must be the stored tiles
+				out.oracle(leaf_len > 0 && wrong == 0, "C13 leaves-setup: the stress file has no leaf directories or does not read back sequentially", json!({"kind": "leaves-setup", "target": target}), json!({"leaf_directory_bytes": leaf_len, "wrong": wrong}));
+				// callers are bound to leaves far apart: first, last, second, middle
+				let n = coords.len();
+				let leaf = |k: usize| -> Vec<usize> { (k * fan..((k + 1) * fan).min(n)).collect() };
+				let nl = n.div_ceil(fan);
+				let groups: Vec<Vec<usize>> = [0, nl - 1, 1, nl / 2].iter().map(|k| leaf(*k)).filter(|g| !g.is_empty()).collect();
+				containers.insert(target.to_string(), (Arc::new(reader), Arc::new(base), Arc::new(groups)));
+			}
+			Err(e) => {
+				out.notes.push(format!("{target}: could not build/open the stress container: {e}"));
+				out.oracle(false, "C13 leaves-setup: the stress file could not be built or opened", json!({"kind": "leaves-setup", "target": target}), json!({"error": e}));
+			}
 		}
 	}
 	StressEnv { file_path, file_data, containers }
@@ -1033,8 +1126,8 @@ fn run_stress(out: &mut Out, env: &StressEnv, cfg: &StressCfg) {
 	let (total, fails, sample) = if cfg.target == "file" {
 		stress_file(cfg, &env.file_path, &env.file_data)
 	} else {
-		let Some((reader, base)) = env.containers.get(&cfg.target) else { return };
-		stress_container(cfg, reader.clone(), base)
+		let Some((reader, base, groups)) = env.containers.get(&cfg.target) else { return };
+		stress_container(cfg, reader.clone(), base, groups)
 	};
 	out.evaluations += total.saturating_sub(sample.len() as u64);
 	for (a, b) in &sample {
@@ -1065,7 +1158,7 @@ pub fn run(args: &Args) {
 	}
 	quiet_panics();
 	let mut out = Out::new(&args.out);
-	out.rule = "(1) `C13 iso`: read_range calls of the real DataReaderFile traced with strace -ff from 4 threads (ranges inside the file, empty, and beyond EOF); the observed per-call syscall program is normalised and judged by the Lean model (isolated? equal to the modelled program? bytes it returns alone) – non-trivial = the call issues at least one syscall. (2) `C13 sched`: 1–4 random well-formed syscall programs (dup/open/lseek/read/pread/close on shared, aliased and own descriptors, plus the two read_range variants) and a random schedule, executed step by step with real syscalls and by the model – non-trivial = at least two non-empty programs whose steps alternate at least twice. (3) stress, oracle only: one reader shared by 2–16 OS threads / 16–64 tasks on a 16-worker tokio runtime, random byte ranges (disjoint regions per thread or overlapping; 1 B – 200 KB; position-dependent file bytes) resp. random tile coordinates (present and absent) on versatiles/pmtiles/tar files written by the real writers; every result is compared with the sequential result; distinct = by (target, executor, threads, request) over the first 200 requests of every thread".into();
+	out.rule = "(1) `C13 iso`: read_range calls of the real DataReaderFile traced with strace -ff from 4 threads (ranges inside the file, empty, and beyond EOF); the observed per-call syscall program is normalised and judged by the Lean model (isolated? equal to the modelled program? bytes it returns alone) – non-trivial = the call issues at least one syscall. (2) `C13 sched`: 1–4 random well-formed syscall programs (dup/open/lseek/read/pread/close on shared, aliased and own descriptors, plus the two read_range variants) and a random schedule, executed step by step with real syscalls and by the model – non-trivial = at least two non-empty programs whose steps alternate at least twice. (3) stress, oracle only: one reader shared by 2–16 OS threads / 16–64 tasks on a 16-worker tokio runtime, random byte ranges (disjoint regions per thread or overlapping; 1 B – 200 KB; position-dependent file bytes) resp. random tile coordinates (present and absent) on versatiles/pmtiles/tar files written by the real writers, and on PMTiles files WITH leaf directories (16900 tiles through the real writer; independently encoded files with 2 and 3 directory levels) where each caller mostly stays in one leaf and different callers use leaves far apart; every result is compared with the sequential result; distinct = by (target, executor, threads, request) over the first 200 requests of every thread".into();
 	if let Some(p) = &args.replay {
 		let lines: Vec<String> = std::fs::read_to_string(p).unwrap().lines().map(|s| s.to_string()).collect();
 		let targets: Vec<&str> = lines.iter().filter(|l| l.starts_with("C13 stress ")).filter_map(|l| l.split(' ').nth(2)).collect();
@@ -1094,7 +1187,7 @@ pub fn run(args: &Args) {
 	let mut rng = Rng::new(args.seed);
 	strace_tie(args, &mut out, args.n(400, 3000), 4);
 	kernel_model_cases(args, &mut out, &mut rng);
-	let env = stress_env(args, &mut out, &["file", "versatiles", "pmtiles", "tar"]);
+	let env = stress_env(args, &mut out, &["file", "versatiles", "pmtiles", "tar", "pmtiles-leaves", "pmtiles-indep2", "pmtiles-indep3"]);
 	let file_calls = args.n(480_000, 6_000_000); // per configuration, split over the threads
 	for (exec, threads) in [("threads", 2usize), ("threads", 4), ("threads", 8), ("threads", 16), ("tokio", 16), ("tokio", 64)] {
 		for mode in ["overlap", "disjoint"] {
@@ -1106,6 +1199,13 @@ pub fn run(args: &Args) {
 	for target in ["versatiles", "pmtiles", "tar"] {
 		for (exec, threads) in [("threads", 2usize), ("threads", 16), ("tokio", 16), ("tokio", 48)] {
 			let cfg = StressCfg { target: target.into(), exec: exec.into(), threads, calls: tile_calls / threads, mode: "overlap".into(), seed: rng.next() % 1_000_000 };
+			run_stress(&mut out, &env, &cfg);
+		}
+	}
+	// leaf directories under contention: callers bound to different leaves (plus random / absent probes)
+	for target in ["pmtiles-leaves", "pmtiles-indep2", "pmtiles-indep3"] {
+		for (exec, threads) in [("threads", 2usize), ("threads", 8), ("tokio", 8), ("tokio", 32)] {
+			let cfg = StressCfg { target: target.into(), exec: exec.into(), threads, calls: tile_calls / threads, mode: "leaves".into(), seed: rng.next() % 1_000_000 };
 			run_stress(&mut out, &env, &cfg);
 		}
 	}
